@@ -84,13 +84,18 @@ impl<'key, 'data> MultipartBuilder<'key, 'data> {
             mp.add_stream(file.name, Cursor::new(file.file), file.filename, file.mime);
         }
         let prepared = mp.prepare().map_err::<IoError, _>(Into::into)?;
-        Ok(Multipart { data: prepared })
+        Ok(Multipart {
+            data: prepared,
+            rendered: None,
+        })
     }
 }
 
 /// A multipart form created using `MultipartBuilder`.
 pub struct Multipart<'data> {
     data: crate::multipart_crate::lazy::PreparedFields<'data>,
+    // The prepared fields can be read only once, but a body is written once per redirect hop.
+    rendered: Option<Vec<u8>>,
 }
 
 impl Body for Multipart<'_> {
@@ -99,7 +104,17 @@ impl Body for Multipart<'_> {
     }
 
     fn write<W: Write>(&mut self, mut writer: W) -> IoResult<()> {
-        copy(&mut self.data, &mut writer)?;
+        if self.rendered.is_none() {
+            let mut rendered = Vec::new();
+            copy(&mut self.data, &mut rendered)?;
+            self.rendered = Some(rendered);
+        }
+        if let Some(rendered) = &self.rendered {
+            // hand the body over in pieces so that no single chunk grows with the form
+            for piece in rendered.chunks(8 * 1024) {
+                writer.write_all(piece)?;
+            }
+        }
         Ok(())
     }
 
